@@ -1205,6 +1205,24 @@ def a5(repo: Repo) -> RuleResult:
         if not any(f.tag == tag for f in res.findings):
             res.bad(Finding("A5", rel, line, "main", construct, msg, witness=witness, tag=tag))
 
+    # (4b) whatever main itself asks about the messages of the file, it asks about all of them: the generators
+    # match -F names against every message bound to the file, nested ones included
+    mainfn = T["fn"].node
+    mod_main = m.mods[T["fn"].rel]
+    scan = [mainfn] + [f_.node for n_, f_ in mod_main.funcs.items() if n_ not in ("main", "run_bitproto", "build_arg_parser") and any(isinstance(c_, ast.Call) and isinstance(c_.func, ast.Name) and c_.func.id == n_ for c_ in ast.walk(mainfn))]
+    for fn_ in scan:
+        uses_filter = any(isinstance(x, ast.Name) and x.id == "filter_messages" for x in ast.walk(fn_))
+        for c_ in ast.walk(fn_):
+            if isinstance(c_, ast.Call) and isinstance(c_.func, ast.Attribute) and c_.func.attr in ("messages", "filter") and uses_filter:
+                rec = next((k_.value for k_ in c_.keywords if k_.arg == "recursive"), None)
+                if rec is None and c_.func.attr == "messages" and c_.args:
+                    rec = c_.args[0]
+                res.inst(part="filter-needs-O", where=fn_.name, call=src_of(c_), recursive=src_of(rec) if rec is not None else None)
+                if not (isinstance(rec, ast.Constant) and rec.value is True):
+                    f_ = Finding("A5", rel, c_.lineno, fn_.name, src_of(c_), f"`{src_of(c_)}` lists the top-level messages only (recursive is not True) where the -F names are looked at: a message nested in another message is a valid -F name for the generators (they walk every message bound to the file) but is not found here", witness="bitproto c x.bitproto -O -F Inner  (Inner declared inside Outer) is refused / treated as unknown", tag=f"{fn_.name}:messages-not-recursive")
+                    f_.part = "filter-needs-O"
+                    res.bad(f_)
+
     # (1) a parser error ends the program with a non-zero status, before lint / render
     pe = T["parse_err"]
     caught = sorted({t for p in pe for e in p.effects if e.kind == "except" for t in e.name.split(",")})
@@ -1306,6 +1324,30 @@ def a5(repo: Repo) -> RuleResult:
     for a_, d_ in zip(reversed(fat.args.args), reversed(fat.args.defaults)):
         if a_.arg == "code" and isinstance(d_, ast.Constant):
             dflt = d_.value
+    # every caller ends with a status in 1..255: the operating system keeps 8 bits, a multiple of 256 reads as success
+    n_codes = 0
+    for mod_ in m.mods.values():
+        if not mod_.rel.startswith("compiler/bitproto/"):
+            continue
+        for c_ in ast.walk(mod_.tree):
+            if not (isinstance(c_, ast.Call) and ((isinstance(c_.func, ast.Name) and c_.func.id in ("fatal", "exit")) or (isinstance(c_.func, ast.Attribute) and c_.func.attr in ("_exit", "exit") and src_of(c_.func.value) in ("os", "sys")))):
+                continue
+            is_fatal = isinstance(c_.func, ast.Name) and c_.func.id == "fatal"
+            code = next((k_.value for k_ in c_.keywords if k_.arg == "code"), None)
+            if code is None:
+                pos_ = c_.args[1:] if is_fatal else c_.args[:1]
+                code = pos_[0] if pos_ else None
+            if code is None:
+                continue  # the default
+            if enclosing(c_, ast.FunctionDef) is fat:
+                continue  # fatal's own os._exit(code)
+            n_codes += 1
+            cv = code.value if isinstance(code, ast.Constant) and isinstance(code.value, int) and not isinstance(code.value, bool) else None
+            if cv is None or not (1 <= cv <= 255):
+                f_ = Finding("A5", mod_.rel, c_.lineno, qualname(c_), src_of(c_), f"the process status is `{src_of(code)}`, not a constant in 1..255: the operating system keeps only the low 8 bits, so a value that is a multiple of 256 (or 0) reads as success", witness="bitproto -c on a schema with exactly 256 lint warnings exits 0", tag=f"{qualname(c_)}:status")
+                f_.part = "fatal"
+                res.bad(f_)
+    res.inst(part="fatal", explicit_status_calls=n_codes)
     res.inst(part="fatal", ok=ok, default_code=dflt)
     if not ok or not dflt:
         res.bad(Finding("A5", "compiler/bitproto/utils.py", fat.lineno, "fatal", why, f"fatal() must end the process with its non-zero `code` (default {dflt})", tag="fatal"))
